@@ -1,7 +1,7 @@
 //! Reference models and independently read data.  Nothing in here calls into riti.
 //! All Bengali literals are written as \u{..} escapes (see DESIGN 6a).
 
-use crate::driver::DATA_DIR;
+use crate::driver::data_dir;
 use okkhor::parser::Parser;
 use regex::Regex;
 use std::collections::{HashMap, HashSet};
@@ -195,7 +195,7 @@ pub struct Data {
 
 fn load_map(name: &str) -> HashMap<String, String> {
     let v: serde_json::Value = serde_json::from_str(
-        &std::fs::read_to_string(format!("{DATA_DIR}/{name}")).unwrap_or_else(|_| panic!("{name}")),
+        &std::fs::read_to_string(format!("{}/{name}", data_dir())).unwrap_or_else(|_| panic!("{name}")),
     )
     .unwrap_or_else(|_| panic!("{name} json"));
     v.as_object()
@@ -208,7 +208,7 @@ fn load_map(name: &str) -> HashMap<String, String> {
 impl Data {
     fn load() -> Data {
         let v: serde_json::Value = serde_json::from_str(
-            &std::fs::read_to_string(format!("{DATA_DIR}/dictionary.json")).expect("dictionary"),
+            &std::fs::read_to_string(format!("{}/dictionary.json", data_dir())).expect("dictionary"),
         )
         .expect("dictionary json");
         let mut sections: Vec<(String, Vec<String>)> = v
